@@ -283,6 +283,65 @@ def process_function(decl, results, structure, reader_kind, bounds):
         bounds.append((fn_tag(decl, None), ci + 1, args))
 
 
+def header_script(decl):
+    """TextReader::ReadHeader as an ordered script of reads: (call, target field / variable, context) in evaluation
+    order; context = nesting of if / for / right operand of && (the optional-field chains)"""
+    READS = ('ReadChar', 'ReadUInt', 'ReadOptionalUInt', 'ReadOptionalDouble', 'ReadTillEndOfLine')
+    out = []
+    def target_of(x):
+        x = strip(x)
+        while x.get('kind') in ('ImplicitCastExpr',):
+            x = strip(x['inner'][0])
+        if x.get('kind') == 'MemberExpr':
+            return x.get('name')
+        if x.get('kind') == 'DeclRefExpr':
+            return x['referencedDecl'].get('name')
+        if x.get('kind') == 'ArraySubscriptExpr':
+            return target_of(x['inner'][0]) + '[]'
+        return '?'
+    def rec(n, ctx, assign_to):
+        if not isinstance(n, dict):
+            return
+        k = n.get('kind')
+        if k == 'CXXMemberCallExpr':
+            callee = strip(n['inner'][0])
+            if callee.get('kind') == 'MemberExpr' and callee.get('name') in READS:
+                nm = callee['name']
+                if 'unsigned long' in (callee.get('type', {}).get('qualType', '') + n.get('type', {}).get('qualType', '')):
+                    nm += '<size_t>'
+                args = n['inner'][1:]
+                tgt = (target_of(args[0]) if args else (assign_to or '-'))
+                if args and assign_to:
+                    tgt = '%s(%s)' % (assign_to, tgt)
+                out.append((nm, tgt, ctx or 'top'))
+                return
+        if k == 'BinaryOperator' and n.get('opcode') == '=':
+            rec(n['inner'][1], ctx, target_of(n['inner'][0]))
+            return
+        if k == 'BinaryOperator' and n.get('opcode') == '&&':
+            rec(n['inner'][0], ctx, None)
+            rec(n['inner'][1], ctx + '&&', None)
+            return
+        if k == 'IfStmt':
+            rec(n['inner'][0], ctx, None)
+            for c in n['inner'][1:]:
+                rec(c, ctx + 'if>', None)
+            return
+        if k == 'ForStmt':
+            for c in n.get('inner', []):
+                rec(c, ctx + 'for>', None)
+            return
+        if k == 'VarDecl':
+            for c in n.get('inner', []):
+                rec(c, ctx, n.get('name'))
+            return
+        for c in n.get('inner', []):
+            rec(c, ctx, assign_to if k in ('ImplicitCastExpr', 'ExprWithCleanups', 'ParenExpr') else None)
+    body = [c for c in decl.get('inner', []) if c.get('kind') == 'CompoundStmt'][0]
+    rec(body, '', None)
+    return out
+
+
 def main():
     repo, out, work = sys.argv[1:4]
     os.makedirs(work, exist_ok=True)
@@ -293,6 +352,7 @@ def main():
     results, structure = [], {}
     seen = {}
     allbounds = {}
+    scripts = []
     for filt, want_cls in (('NLReader', ('NLReader',)), ('TextReader', ('TextReader',)), ('BinaryReader', ('BinaryReader', 'BinaryReaderBase'))):
         docs = clang_dump(tu, filt, [os.path.join(repo, 'include'), os.path.join(repo, 'src')])
         for d in docs:
@@ -310,6 +370,11 @@ def main():
                 rk = 'bin' if targs and 'BinaryReader' in targs[0] else 'text'
                 if 'NLReader' in want_cls and len(targs) > 1 and 'VarBoundHandler' in targs[1]:
                     return
+                if n.get('name') == 'ReadHeader' and specs[-1].get('name') == 'TextReader':
+                    hs = header_script(n)
+                    if scripts and scripts[0] != hs:
+                        raise TranslateError('ReadHeader script differs between instantiations')
+                    scripts.append(hs)
                 local_res, local_struct, local_b = [], {}, []
                 process_function(n, local_res, local_struct, rk, local_b)
                 for bnd in local_b:
@@ -378,6 +443,14 @@ def main():
             nm = 'cases_%s_%s%s' % (cls, re.sub(r'\W', '_', fn), '' if j == 0 else '_%d' % (j + 1))
             L.append('/-- case labels of switch #%d in %s::%s -/' % (j + 1, cls, fn))
             L.append('def %s : List Int := [%s]' % (nm, ', '.join(str(x) for x in labels)))
+    if not scripts:
+        raise TranslateError('TextReader::ReadHeader not found')
+    L.append('')
+    L.append('/-- `TextReader::ReadHeader` as the ordered script of its reads: (call, target, context); context: `if>` inside an')
+    L.append('    if-branch, `for>` inside the option loop, `&&` right operand of a short-circuit chain (optional fields) -/')
+    L.append('def headerScript : List (String × String × String) := [')
+    L.append(',\n'.join('  ("%s", "%s", "%s")' % t for t in scripts[0]))
+    L.append(']')
     L += ['', 'end MpVerif.Gen.NLGuards', '']
     txt = '\n'.join(L)
     if not os.path.exists(out) or open(out).read() != txt:
